@@ -154,9 +154,10 @@ func parseRaces(path string) map[string]string {
 // ---------- plan ----------
 
 type query struct {
-	kind string
-	p, q s2.Point
-	cell s2.Cell
+	kind  string
+	p, q  s2.Point
+	cell  s2.Cell
+	model int // cpq: vertex model (0 semi-open, 1 open, 2 closed)
 }
 
 type plan struct {
@@ -212,6 +213,11 @@ func genPlan(r *rand.Rand) *plan {
 		case 0:
 			return gen.Uniform(r)
 		case 1:
+			if len(pl.pool) > 0 { // an exact vertex of one of the indexed shapes
+				if o := pl.pool[r.Intn(len(pl.pool))]; len(o.Vertices) > 0 {
+					return o.Vertices[r.Intn(len(o.Vertices))]
+				}
+			}
 			return pl.vs[r.Intn(len(pl.vs))]
 		default:
 			return gen.Near(r, pl.center, pl.scale*1.5*r.Float64())
@@ -223,7 +229,7 @@ func genPlan(r *rand.Rand) *plan {
 	for g := 0; g < pl.nG; g++ {
 		var qs []query
 		for i := 0; i < nq; i++ {
-			q := query{p: pt(), q: pt()}
+			q := query{p: pt(), q: pt(), model: r.Intn(3)}
 			q.cell = s2.CellFromCellID(s2.CellFromPoint(q.p).ID().Parent(r.Intn(31)))
 			switch pl.obj {
 			case "loop":
@@ -303,7 +309,7 @@ func (pl *plan) build() *world {
 
 // answer runs one query; query objects are created by the caller (per goroutine).
 type qobjs struct {
-	cpq *s2.ContainsPointQuery
+	cpq [3]*s2.ContainsPointQuery
 	ceq *s2.CrossingEdgeQuery
 	eq  *s2.EdgeQuery
 }
@@ -331,10 +337,10 @@ func (w *world) answer(q query, qo *qobjs) string {
 		}
 		return fmt.Sprint(w.poly.Contains(w.opoly), w.poly.Intersects(w.opoly))
 	case "cpq":
-		if qo.cpq == nil {
-			qo.cpq = s2.NewContainsPointQuery(w.idx, s2.VertexModelSemiOpen)
+		if qo.cpq[q.model] == nil {
+			qo.cpq[q.model] = s2.NewContainsPointQuery(w.idx, []s2.VertexModel{s2.VertexModelSemiOpen, s2.VertexModelOpen, s2.VertexModelClosed}[q.model])
 		}
-		return fmt.Sprint(qo.cpq.Contains(q.p), len(qo.cpq.ContainingShapes(q.p)))
+		return fmt.Sprint(qo.cpq[q.model].Contains(q.p), len(qo.cpq[q.model].ContainingShapes(q.p)))
 	case "ceq":
 		if q.p == q.q {
 			return "-"
